@@ -48,13 +48,13 @@ META = {
     ),
     "C08": dict(
         technique="event/term matching on walked paths of writer, loader and in-place signers (effective open modes, json.load hooks, store targets); custom rules",
-        text="Structural half of persistence: the writer writes exactly canonserialize(metadata) once, in binary mode, to the named file, serializing before opening; the loader returns json.load(open(fname,'rb')) with default hooks, unmodified (also not changed in place); a writer that stages the bytes in another file and moves it onto the name with os.replace is accepted; every in-place signer stores only under ['signatures'] of the document and writes back the value it loaded to the path it loaded it from; callers of the in-memory signers do not drop the signatures already present.",
+        text="Structural half of persistence: the writer writes exactly canonserialize(metadata) once, in binary mode, to the named file, serializing before opening; the loader returns json.load(open(fname,'rb')) with default hooks, unmodified (also not changed in place); a writer that stages the bytes in another file and moves it onto the name with os.replace is accepted; the writer fails through the serializer or the file system only; every in-place signer stores only under ['signatures'] of the document and writes back the value it loaded to the path it loaded it from; callers of the in-memory signers do not drop the signatures already present.",
         note="Partial: json.load(canonserialize(x)) == x and the resulting invariance of verdicts are properties of CPython's json module given these facts; not decided here.",
         ref="5 C08",
     ),
     "C12": dict(
         technique="interprocedural effect analysis (parameter write sets, module-state writes, caching constructs, ambient reads) over walker events + static import closure + stdout taint; fixture-backed zero-count rules",
-        text="For all 29 validators/verifiers, the serializer, serialize_and_sign, wrap_as_signable and the key helpers the interprocedural write set on parameters is empty; no library function writes module/class/function state or mutates a module constant; no caching decorator or mutable default; no clock/environment/randomness/filesystem/warnings-filter/hash-seed-order read is reachable from a verifier; module chains are inside the static import closure; printed text is ASCII-safe; wrapping deep-copies. Thread-safety and order-independence follow from the absence of shared mutable state.",
+        text="For all 29 validators/verifiers, the serializer, serialize_and_sign, wrap_as_signable and the key helpers the interprocedural write set on parameters is empty; no library function writes module/class/function state or mutates a module constant; no caching decorator, mutable default or class-level mutable attribute changed in place; no clock/environment/randomness/filesystem/warnings-filter/hash-seed-order read is reachable from a verifier; module chains are inside the static import closure; printed text is ASCII-safe; wrapping deep-copies. Thread-safety and order-independence follow from the absence of shared mutable state.",
         note="Aliasing through objects with adversarial dunder methods is excluded (A3). Each zero-count detector is shown to fire on /verif/fixtures/purity on every run.",
         ref="5 C12",
     ),
@@ -72,13 +72,13 @@ META = {
     ),
     "C07": dict(
         technique="effective-configuration extraction of the one json.dumps call (explicit keywords merged over inspect.signature defaults), purity of the serializer's cone, message-sink dataflow through forwarding parameters; custom rules",
-        text="Decides the part of the wire-format property that is in this source: canonserialize is json.dumps(obj, sort_keys=True, indent=2, ensure_ascii=True, default separators, allow_nan=True, ...).encode(utf-8) and nothing else; it reads no ambient state; every message reaching key.sign, key.verify (directly or as first digest chunk) or the GnuPG signer is a canonserialize(...) term at every library call site, so there is exactly one serializer on both sides.",
+        text="Decides the part of the wire-format property that is in this source: canonserialize is json.dumps(obj, sort_keys=True, indent=2, ensure_ascii=True, default separators, allow_nan=True, ...).encode(utf-8) and nothing else; it reads no ambient state; every message reaching key.sign, key.verify (directly or as first digest chunk) or the GnuPG signer is a canonserialize(...) term at every library call site, so there is exactly one serializer on both sides; canonserialize fails only where json.dumps does (no pre-check of its own turns serializable values away), and no module of the package calls an interpreter-wide setter (sys.set_int_max_str_digits, locale, ...) or patches a library module.",
         note="Partial: determinism across hash seeds/locales, injectivity, parse-serialize fixpoint and float/surrogate rendering are properties of CPython's json module given this configuration; they are not decided (static reach ends at the configuration).",
         ref="5 C07",
     ),
     "C09": dict(
         technique="term-level matching of the wrap return value, the single store of sign_signable (target, value, ordering after the grammar check), interprocedural write set, sibling writer/reader agreement, exact accept gate",
-        text="wrap_as_signable returns a fresh two-field dict with a deep copy under a JSON-type gate; sign_signable performs exactly one store, under hex(raw public key of the given private key), of {'signature': hex(sign(canonserialize(signable['signed'])))}, after the entry passed the grammar, and writes nothing else (so other signers' entries are untouched and order cannot matter); it fails only through validation of its arguments or a step of the signing pipeline; signer and verifier agree on serializer/field/codec/filing; the accept gate is exactly len(counted) >= threshold and the verifier's argument checks reject nothing the signer can produce (C02's rules re-run).",
+        text="wrap_as_signable returns a fresh two-field dict with a deep copy under a JSON-type gate and refuses nothing but values that are not of a JSON type; sign_signable performs exactly one store, under hex(raw public key of the given private key), of {'signature': hex(sign(canonserialize(signable['signed'])))}, after the entry passed the grammar, and writes nothing else (so other signers' entries are untouched and order cannot matter); it fails only through validation of its arguments or a step of the signing pipeline; signer and verifier agree on serializer/field/codec/filing; the accept gate is exactly len(counted) >= threshold and the verifier's argument checks reject nothing the signer can produce (C02's rules re-run).",
         note="Partial: determinism/idempotence of Ed25519 and 'a changed payload stops verifying' are crypto-library facts (A2).",
         ref="5 C09",
     ),
@@ -90,7 +90,7 @@ META = {
     ),
     "C10": dict(
         technique="term-sequence normalisation of the bytes fed to the hash object (concatenation flattening, BE32/hex codec normal forms) compared with the RFC 4880 v4 trailer written as a term list; event matching for verify; transcription store/del matching",
-        text="On every accepting path of verify_gpg_signature the hash is SHA-256 over exactly data || unhex(other_headers) || 04 ff || be32(len(unhex(other_headers))), and acceptance is from_public_bytes(unhex(key_value)).verify(unhex(signature['signature']), digest) behind the entry/key/data format gates, with InvalidSignature propagating; the verifier writes none of its arguments; module chains are in the import closure; the GPG signing path returns the signer's dict minus keyid (optionally see_also := keyid), signs canonserialize(signed) and files the entry under the raw key value q of the same fingerprint, changing nothing else in the envelope.",
+        text="On every accepting path of verify_gpg_signature the hash is SHA-256 over exactly data || unhex(other_headers) || 04 ff || be32(len(unhex(other_headers))), and acceptance is from_public_bytes(unhex(key_value)).verify(unhex(signature['signature']), digest) behind the entry/key/data format gates, with InvalidSignature propagating - and raised by the ed25519 verification only; the verifier writes none of its arguments and reads no ambient state; module chains are in the import closure; the GPG signing path returns the signer's dict minus keyid (optionally see_also := keyid), signs canonserialize(signed) and files the entry under the raw key value q of the same fingerprint, changing nothing else in the envelope.",
         note="Partial: what real GnuPG / securesystemslib emit cannot be examined (neither is installed); transcription is checked assuming the signer returns {keyid, other_headers, signature}. Crypto soundness assumed (A2); lengths < 2**32 (A5).",
         ref="5 C10",
     ),
@@ -102,7 +102,7 @@ META = {
     ),
     "C15": dict(
         technique="path-wise comparison of each leaf validator (callees inlined to primitive facts) with its grammar written as a conjunction; predicate/raiser sibling agreement",
-        text="Every leaf validator accepts only on paths that establish all conjuncts of its grammar ({fromhex ok, isalnum, lower()==s} + exact length 64/128/40; raw and OpenPGP entry shapes; duplicate-free key list) and rejects only on paths carrying the negation of a conjunct; each is_X predicate is True exactly when checkformat_X returns and False exactly when it raises, with a handler covering the raiser's whole escape set.",
+        text="Every leaf validator accepts only on paths that establish all conjuncts of its grammar ({fromhex ok, isalnum, lower()==s} + exact length 64/128/40; raw and OpenPGP entry shapes; duplicate-free key list) and rejects only on paths carrying the negation of a conjunct; each is_X predicate is True exactly when checkformat_X returns and False exactly when it raises, with a handler covering the raiser's whole escape set; every other is_* predicate that has a raising form answers for every value.",
         note="The lemma 'the three hex conjuncts <=> ([0-9a-f]{2})+' is a paper argument from CPython's documented bytes.fromhex / str.isalnum / str.lower (A1). A regex-based rewrite of a validator is not recognised (it would be reported).",
         ref="5 C15",
     ),
@@ -114,7 +114,7 @@ META = {
     ),
     "C19": dict(
         technique="expanded-term equality for the key helper class methods under each concrete class binding (hex/unhex and Raw/Raw <-> from_*_bytes pairing), key-file write/read stream pairing, equivalence clause facts",
-        text="Decides the codec pairing that losslessness rests on: to_hex = hex(to_bytes), from_hex = from_bytes(unhex(x)) behind the 64-hex gate, to_bytes = Raw/Raw serialization paired with from_public_bytes / from_private_bytes, bytes-like gate; key files are written and read with matching suffixes, roles and binary mode; is_equivalent_to is the symmetric byte comparison between same-type keys; checkformat_key is the isinstance gate; the signer files its entry under the public key derived from the key that signs.",
+        text="Decides the codec pairing that losslessness rests on: to_hex = hex(to_bytes), from_hex = from_bytes(unhex(x)) behind the 64-hex gate, to_bytes = Raw/Raw serialization paired with from_public_bytes / from_private_bytes, bytes-like gate; key files are written and read with matching suffixes, roles and binary mode, and the reader turns a file away for its length only, never for the bytes it holds; is_equivalent_to is the symmetric byte comparison between same-type keys; checkformat_key is the isinstance gate; the signer files its entry under the public key derived from the key that signs.",
         note="Partial: equality with RFC 8032 vectors and value-level round trips are properties of the cryptography library (A2) - no static argument in reach.",
         ref="5 C19",
     ),
